@@ -18,7 +18,7 @@ META = {
         "quick": {"evaluations": 15000, "distinct_nontrivial": 4000, "tables": {"programs": 600, "symmetry/Z4": 200, "kind/fermionic": 5000, "kind/generic": 2000}},
         "thorough": {"evaluations": 600000, "distinct_nontrivial": 100000, "tables": {"programs": 20000}},
     },
-    "wall": {"quick": 100, "thorough": 1700},
+    "wall": {"quick": 300, "thorough": 1700},
     "debug_shards": {"thorough": 2},
 }
 
